@@ -471,6 +471,12 @@ class Interp:
         so = _select_out(t)
         if so is not None:
             return Enum('SelectOut%d' % so[1], so[0], {so[0]: ()})
+        mnum = re.match(r'^(?:core|std)::num::<impl (\w+)>::(MAX|MIN|BITS)$', t) or re.match(r'^(u8|u16|u32|u64|u128|usize|i8|i16|i32|i64|i128|isize)::(MAX|MIN|BITS)$', t)
+        if mnum and mnum.group(1) in INT_TYPES:
+            lo_, hi_ = int_range(mnum.group(1))
+            if mnum.group(2) == 'BITS':
+                return S(z3.IntVal(INT_TYPES[mnum.group(1)][0]), 'u32')
+            return S(z3.IntVal(hi_ if mnum.group(2) == 'MAX' else lo_), mnum.group(1))
         # unit enum variants
         flat = strip_generics(t)
         segs = flat.split('::')
